@@ -90,6 +90,7 @@ SPEC = {
              "judged for that record (counted) and are judged for every record created afterwards; these decisions come "
              "from a stream of their own, so the programs are the same as without them. A case is non-trivial if at least one "
              "emit was verified; distinct = hash of configuration + operation/shape/alternative/key sequence."),
+    "rule_extra": " Round 2: one pending record in five (both loggers enabled) is emitted through another logger of the provider and must carry that logger's scope.",
     "assumptions": ASSUME_COMMON + [
         "const char* and string_view bodies/attributes are one value class (string): the statement is about the value, not the variant index",
         "fields that were never supplied (severity, body, timestamp, event id) are not judged; a defaulted observed timestamp must lie within 2 s of the CreateLogRecord call (slack so that a clock step never decides)",
